@@ -82,6 +82,8 @@ type vhpxReqSpec struct {
 	HalfClose bool `json:"half_close"`
 	// kinds "connect" / "disconnect": an upstream registers with / is removed from node Entry between two requests
 	Up   *vhpxUpSpec `json:"up"`
+	// Burst > 1: the request is sent Burst times at the same moment (same tag); every copy's status, stamp and time is recorded
+	Burst int `json:"burst"`
 	UpID string      `json:"up_id"`
 }
 
@@ -118,6 +120,7 @@ type vhpxClusterSpec struct {
 	// ViaAgent: every upstream is a real piko agent reverse proxy (agent/reverseproxy.Server) in front of the scripted
 	// service, as with `piko agent http`: client -> node(s) -> agent -> service
 	ViaAgent  bool           `json:"via_agent"`
+	AgentIdle int            `json:"agent_idle"` // the agents' http-client max-idle-conns (0 = the harness default: unlimited)
 	ID        string         `json:"id"`
 	TimeoutMs int            `json:"timeout_ms"`
 	AccessLog *vhpxAccessLog `json:"access_log"`
@@ -166,6 +169,9 @@ type vhpxReqOut struct {
 	UpUnattributed  int          `json:"up_unattributed"`
 	Resp            *vhpxRespOut `json:"resp"`
 	EchoOK          *bool        `json:"echo_ok,omitempty"`
+	BurstStatus     []int        `json:"burst_status,omitempty"`
+	BurstStamped    []bool       `json:"burst_stamped,omitempty"`
+	BurstMs         []int64      `json:"burst_ms,omitempty"`
 }
 
 type vhpxClusterOut struct {
@@ -270,6 +276,7 @@ type vhpxCluster struct {
 
 	mu        sync.Mutex
 	known     map[string]bool
+	bursts    map[string]int
 	specs     map[string]*vhpxRespSpec
 	inv       map[string][]int
 	invUn     int
@@ -356,7 +363,11 @@ func (c *vhpxCluster) count(key string, idx int) bool {
 	for _, n := range v {
 		total += n
 	}
-	return total <= vhpxMaxHops
+	limit := vhpxMaxHops
+	if b := c.bursts[key]; b > 1 {
+		limit *= b
+	}
+	return total <= limit
 }
 
 func (c *vhpxCluster) record(rec vhpxRecord) *vhpxRespSpec {
@@ -727,7 +738,7 @@ func (c *vhpxCluster) run() {
 				aconf := agentconfig.ListenerConfig{EndpointID: u.ep, Addr: u.ln.Addr().String(), Protocol: agentconfig.ListenerProtocolHTTP}
 				aconf.AccessLog.Disable = true
 				aconf.AccessLog.Level = "info"
-				aconf.HTTPClient.MaxIdleConns = 0
+				aconf.HTTPClient.MaxIdleConns = spec.AgentIdle
 				asrv := reverseproxy.NewServer(aconf, reverseproxy.NewMetrics("vhpx"), log.NewNopLogger())
 				u.agent = c.listen()
 				go func(ln net.Listener) {
@@ -796,6 +807,10 @@ func (c *vhpxCluster) run() {
 		key := spec.ID + "/" + strconv.Itoa(ri)
 		c.mu.Lock()
 		c.known[key] = true
+		if c.bursts == nil {
+			c.bursts = map[string]int{}
+		}
+		c.bursts[key] = rq.Burst
 		c.specs[key] = rq.Resp
 		c.mu.Unlock()
 
@@ -818,6 +833,29 @@ func (c *vhpxCluster) run() {
 				delete(ups[rq.Entry], u.id)
 			}
 		case "http":
+			if rq.Burst > 1 {
+				copies := make([]vhpxReqOut, rq.Burst)
+				var wg sync.WaitGroup
+				for k := range copies {
+					wg.Add(1)
+					go func(k int) {
+						defer wg.Done()
+						defer c.guard("burst request")
+						t := time.Now()
+						c.doHTTP(addrs[rq.Entry], rq, key, &copies[k])
+						copies[k].ElapsedMs = time.Since(t).Milliseconds()
+					}(k)
+				}
+				wg.Wait()
+				first := copies[0]
+				out.Err, out.Status, out.Stamped, out.StampEp, out.StampUp, out.Resp = first.Err, first.Status, first.Stamped, first.StampEp, first.StampUp, first.Resp
+				for _, cp := range copies {
+					out.BurstStatus = append(out.BurstStatus, cp.Status)
+					out.BurstStamped = append(out.BurstStamped, cp.Stamped)
+					out.BurstMs = append(out.BurstMs, cp.ElapsedMs)
+				}
+				break
+			}
 			c.doHTTP(addrs[rq.Entry], rq, key, &out)
 		case "tcp":
 			c.doTCP(addrs[rq.Entry], rq, key, &out)
